@@ -15,6 +15,7 @@ package main
 
 import (
 	"context"
+	"errors"
 	"fmt"
 	"io"
 	"net"
@@ -23,8 +24,12 @@ import (
 	"time"
 
 	discovery "github.com/envoyproxy/go-control-plane/envoy/service/discovery/v3"
+	rpcstatus "google.golang.org/genproto/googleapis/rpc/status"
+	"google.golang.org/grpc/codes"
 	"google.golang.org/grpc/metadata"
 	"google.golang.org/grpc/peer"
+	"google.golang.org/grpc/status"
+	"strings"
 
 	"istio.io/istio/pilot/pkg/model"
 	pxds "istio.io/istio/pilot/pkg/xds"
@@ -33,14 +38,15 @@ import (
 )
 
 type liveStream struct {
-	ctx    context.Context
-	cancel context.CancelFunc
-	mu     sync.Mutex
-	sent   int
-	nonces []string
-	gate   chan struct{} // non-nil: Send blocks until it is closed
-	inSend chan struct{} // signalled when a Send is entered
-	dead   chan struct{}
+	ctx      context.Context
+	cancel   context.CancelFunc
+	mu       sync.Mutex
+	sent     int
+	nonces   []string
+	gate     chan struct{} // non-nil: Send blocks until it is closed
+	inSend   chan struct{} // signalled when a Send is entered
+	dead     chan struct{}
+	failSend bool // Send returns an error
 }
 
 func newLive() *liveStream {
@@ -57,7 +63,7 @@ func (l *liveStream) Context() context.Context     { return l.ctx }
 func (l *liveStream) SendMsg(any) error            { return nil }
 func (l *liveStream) RecvMsg(any) error            { return nil }
 
-func (l *liveStream) noteSend(nonce string) {
+func (l *liveStream) noteSend(nonce string) error {
 	select {
 	case l.inSend <- struct{}{}:
 	default:
@@ -65,10 +71,14 @@ func (l *liveStream) noteSend(nonce string) {
 	if l.gate != nil {
 		<-l.gate
 	}
+	if l.failSend {
+		return errors.New("send failed")
+	}
 	l.mu.Lock()
 	l.sent++
 	l.nonces = append(l.nonces, nonce)
 	l.mu.Unlock()
+	return nil
 }
 
 func (l *liveStream) count() int {
@@ -104,30 +114,40 @@ func (l *liveStream) waitCount(n int) bool {
 
 type liveSotw struct {
 	*liveStream
-	reqs chan *discovery.DiscoveryRequest
+	reqs    chan *discovery.DiscoveryRequest
+	recvErr chan error // a value makes Recv return it (a transport error)
 }
 
-func (s *liveSotw) Send(r *discovery.DiscoveryResponse) error { s.noteSend(r.Nonce); return nil }
+func (s *liveSotw) Send(r *discovery.DiscoveryResponse) error { return s.noteSend(r.Nonce) }
 func (s *liveSotw) Recv() (*discovery.DiscoveryRequest, error) {
-	r, ok := <-s.reqs
-	if !ok {
-		return nil, io.EOF
+	select {
+	case r, ok := <-s.reqs:
+		if !ok {
+			return nil, io.EOF
+		}
+		return r, nil
+	case err := <-s.recvErr:
+		return nil, err
 	}
-	return r, nil
 }
 
 type liveDelta struct {
 	*liveStream
-	reqs chan *discovery.DeltaDiscoveryRequest
+	reqs    chan *discovery.DeltaDiscoveryRequest
+	recvErr chan error
 }
 
-func (s *liveDelta) Send(r *discovery.DeltaDiscoveryResponse) error { s.noteSend(r.Nonce); return nil }
+func (s *liveDelta) Send(r *discovery.DeltaDiscoveryResponse) error { return s.noteSend(r.Nonce) }
 func (s *liveDelta) Recv() (*discovery.DeltaDiscoveryRequest, error) {
-	r, ok := <-s.reqs
-	if !ok {
-		return nil, io.EOF
+	select {
+	case r, ok := <-s.reqs:
+		if !ok {
+			return nil, io.EOF
+		}
+		return r, nil
+	case err := <-s.recvErr:
+		return nil, err
 	}
-	return r, nil
 }
 
 // live is one running stream of either protocol.
@@ -155,17 +175,20 @@ func startLive(delta bool) *live {
 		l.done <- err
 	}
 	if delta {
-		l.d = &liveDelta{l.ls, make(chan *discovery.DeltaDiscoveryRequest)}
+		l.d = &liveDelta{l.ls, make(chan *discovery.DeltaDiscoveryRequest), make(chan error, 1)}
 		go func() { finish(srv.StreamDeltas(l.d)) }()
 	} else {
-		l.s = &liveSotw{l.ls, make(chan *discovery.DiscoveryRequest)}
+		l.s = &liveSotw{l.ls, make(chan *discovery.DiscoveryRequest), make(chan error, 1)}
 		go func() { finish(srv.StreamAggregatedResources(l.s)) }()
 	}
 	return l
 }
 
 // send hands one request to the receive side (blocks until Recv takes it, or 20 s).
-func (l *live) send(url, nonce string) (ok bool) {
+func (l *live) send(url, nonce string) (ok bool) { return l.sendFull(url, nonce, nil, "", "") }
+
+// sendFull: with resource names, an error_detail message (a NACK) and an explicit node class for the first request.
+func (l *live) sendFull(url, nonce string, names []string, nack, nodeClass string) (ok bool) {
 	defer func() {
 		if recover() != nil {
 			ok = false // the client side was closed meanwhile
@@ -174,12 +197,19 @@ func (l *live) send(url, nonce string) (ok bool) {
 	node := recvNode("nil")
 	if l.first {
 		node = recvNode("ok")
+		if nodeClass != "" {
+			node = recvNode(nodeClass)
+		}
 		l.first = false
+	}
+	var ed *rpcstatus.Status
+	if nack != "" {
+		ed = &rpcstatus.Status{Code: 13, Message: nack}
 	}
 	t := time.After(20 * time.Second)
 	if l.delta {
 		select {
-		case l.d.reqs <- &discovery.DeltaDiscoveryRequest{TypeUrl: url, Node: node, ResponseNonce: nonce}:
+		case l.d.reqs <- &discovery.DeltaDiscoveryRequest{TypeUrl: url, Node: node, ResponseNonce: nonce, ResourceNamesSubscribe: names, ErrorDetail: ed}:
 			return true
 		case <-l.dead:
 			return false
@@ -188,7 +218,7 @@ func (l *live) send(url, nonce string) (ok bool) {
 		}
 	}
 	select {
-	case l.s.reqs <- &discovery.DiscoveryRequest{TypeUrl: url, Node: node, ResponseNonce: nonce}:
+	case l.s.reqs <- &discovery.DiscoveryRequest{TypeUrl: url, Node: node, ResponseNonce: nonce, ResourceNames: names, ErrorDetail: ed}:
 		return true
 	case <-l.dead:
 		return false
@@ -226,7 +256,80 @@ func runSloop(mode, scenario string) (out string) {
 	result := func(ended bool, err error) string {
 		return fmt.Sprintf("responses=%d ended=%s error=%s", l.ls.count(), wireB(ended), wireB(err != nil))
 	}
+	idle := func() { time.Sleep(150 * time.Millisecond) } // the loop has gone back to its blocking select
+	finish := func() string {
+		ended, err := l.ended(20 * time.Second)
+		l.ls.cancel()
+		go l.closeClient()
+		return result(ended, err)
+	}
 	switch scenario {
+	case "process-error-idle":
+		// the failing request arrives while the loop WAITS: the second (blocking) select arm takes it
+		l.send(v3.ClusterType, "")
+		l.ls.waitCount(1)
+		l.send(v3.ClusterType, l.ls.lastNonce())
+		idle()
+		l.send(pxds.TypeDebugSyncronization, "")
+		return finish()
+	case "process-error-busy":
+		// the failing request arrives while the loop is BUSY (inside Send): the first (polling) select arm takes it
+		l.ls.gate = make(chan struct{})
+		l.send(v3.ClusterType, "")
+		select {
+		case <-l.ls.inSend:
+		case <-time.After(20 * time.Second):
+		}
+		l.send(pxds.TypeDebugSyncronization, "") // waits in the hand-over buffer
+		time.Sleep(50 * time.Millisecond)
+		close(l.ls.gate)
+		return finish()
+	case "no-node":
+		// the first request carries no node: the stream is refused - the stream function RETURNS with the error
+		l.sendFull(v3.ClusterType, "", nil, "", "nil")
+		return finish()
+	case "transport-error":
+		l.send(v3.ClusterType, "")
+		l.ls.waitCount(1)
+		idle()
+		if l.delta {
+			l.d.recvErr <- status.Error(codes.Internal, "transport broke")
+		} else {
+			l.s.recvErr <- status.Error(codes.Internal, "transport broke")
+		}
+		return finish()
+	case "send-fails":
+		// the response cannot be sent: handling the request fails, the stream ends with the error, nothing went out
+		l.ls.failSend = true
+		l.send(v3.ClusterType, "")
+		return finish()
+	case "stop":
+		// the connection is stopped from outside (debug endpoint): the loop returns without an error
+		l.send(v3.ClusterType, "")
+		l.ls.waitCount(1)
+		idle()
+		for _, c := range realServer().Clients() {
+			c.Stop()
+		}
+		return finish()
+	case "exchange":
+		// what a real client sends besides ACKs: a NACK, a stale nonce, a request with names, a push overtaking the ACK
+		l.send(v3.ClusterType, "")
+		l.ls.waitCount(1)
+		n1 := l.ls.lastNonce()
+		l.sendFull(v3.ClusterType, n1, nil, "rejected", "")                               // NACK: silent
+		l.send(v3.ClusterType, "stale-nonce")                                             // stale: silent
+		l.sendFull(v3.EndpointType, "", []string{"outbound|80||nowhere.example"}, "", "") // names: answered
+		l.ls.waitCount(2)
+		idle()
+		realServer().ConfigUpdate(&model.PushRequest{Forced: true, Reason: model.NewReasonStats(model.ConfigUpdate)})
+		l.ls.waitCount(4)          // CDS and EDS are pushed
+		l.send(v3.ClusterType, n1) // the ACK of the FIRST response, overtaken by the push: stale, silent
+		idle()
+		n := l.ls.count()
+		l.closeClient()
+		ended, err := l.ended(20 * time.Second)
+		return fmt.Sprintf("responses=%d ended=%s error=%s", n, wireB(ended), wireB(err != nil))
 	case "process-error":
 		l.send(v3.ClusterType, "")
 		l.ls.waitCount(1)
@@ -309,7 +412,8 @@ func applySloop(f []string) string {
 	return "bad-op"
 }
 
-var sloopScenarios = []string{"process-error", "pushes", "ctx-done", "eof"}
+var sloopScenarios = []string{"process-error-idle", "process-error-busy", "no-node", "transport-error", "send-fails", "stop",
+	"exchange", "pushes", "ctx-done", "eof"}
 
 func genSloop(outp string) {
 	out := wire.Create(outp)
@@ -329,23 +433,38 @@ func oracleSloop(in, outp string) {
 	out := wire.Create(outp)
 	defer out.Close()
 	want := map[string]string{
-		"process-error": "responses=1 ended=1 error=1", // the failing request ends the stream with its error; nothing after it
-		"pushes":        "responses=3 ended=0 error=0", // the subscription and BOTH pushes are answered
-		"ctx-done":      "responses=1 ended=1 error=0", // released by the context, the loop drains and returns
-		"eof":           "responses=1 ended=1 error=0",
+		"process-error-idle": "responses=1 ended=1 error=1", // second select arm
+		"process-error-busy": "responses=1 ended=1 error=1", // first select arm
+		"no-node":            "responses=0 ended=1 error=1", // refused: the stream function returns the error
+		"transport-error":    "responses=1 ended=1 error=1",
+		"send-fails":         "responses=0 ended=1 error=1",
+		"stop":               "responses=1 ended=1 error=0",
+		"exchange":           "responses=4 ended=1 error=0",
+		"process-error":      "responses=1 ended=1 error=1", // the failing request ends the stream with its error; nothing after it
+		"pushes":             "responses=3 ended=0 error=0", // the subscription and BOTH pushes are answered
+		"ctx-done":           "responses=1 ended=1 error=0", // released by the context, the loop drains and returns
+		"eof":                "responses=1 ended=1 error=0",
 	}
 	clause := map[string]string{
+		"process-error-idle": "failing-request-ends-the-stream(second-arm)", "process-error-busy": "failing-request-ends-the-stream(first-arm)",
+		"no-node": "refused-stream-returns-its-error", "transport-error": "transport-error-ends-the-stream-with-the-error",
+		"send-fails": "failed-send-ends-the-stream", "stop": "stopped-connection-returns", "exchange": "nack-stale-overtaken-ack-silent-in-the-real-loop",
 		"process-error": "failing-request-ends-the-stream", "pushes": "every-push-reaches-the-connection",
 		"ctx-done": "cancelled-stream-returns", "eof": "closed-stream-returns-without-error",
 	}
+	defer dumpStats(outp)
 	for _, f := range wire.ReadLines(in) {
 		if f[0] != "sloop" {
 			continue
 		}
 		got := runSloop(f[1], f[2])
-		if got == want[f[2]] {
+		stat("scenario." + f[1] + "." + f[2])
+		switch {
+		case got == want[f[2]]:
 			out.Line("OK")
-		} else {
+		case strings.Contains(got, "ended=0") && strings.Contains(want[f[2]], "ended=1"):
+			out.Line("FAIL", "stream-does-not-end", f[1], f[2], got)
+		default:
 			out.Line("FAIL", clause[f[2]], f[1], got)
 		}
 	}
